@@ -5,40 +5,94 @@
 
 package mozilla
 
+// ---------------------------------------------------------------- decoding (C01, C15)
+//
+// decodePkixName: base64, then an RDNSequence (assumed asn1.Unmarshal), then a new Name.
+// No panic; a name or an error.
+//@ func decodePkixName
+//@   ensures result2 == nil ==> result0 != nil && fresh(result0)
+//@   ensures result2 != nil ==> result0 == nil && result1 == nil
+//@   modifies nothing
+//@   terminates
+
+// (*Entry).UnmarshalJSON: no panic; [shape] on success the entry is a blocked record
+// (subject and key hash) or carries an issuer and a serial number - what Parse and Check
+// rely on. (The obligation #nil.1 - aux.Schema after json.Unmarshal - FAILED before /repo
+// commit 6e29e2c: the code decoded into &aux and the JSON value null set the pointer aux to
+// nil; defect D3 in /verif/notes/revocation.md. It decodes into the record aux points to now.)
+//@ func (*Entry).UnmarshalJSON
+//@   requires entry != nil
+//@   ensures [shape] result == nil ==> entry.SubjectAndPublicKey != nil || (entry.Issuer != nil && entry.SerialNumber != nil)
+//@   modifies *entry, ghost.bigEq, ghost.bigStr
+//@   terminates
+
+// Parse is NOT under contract: the bounds check of rawOneCRL.Data[i] needs "the lists filed in
+// the map are objects other than the local rawOneCRL", which cannot be written (the address of
+// an address-taken local cannot be named in an invariant), see /verif/notes/revocation.md.
+
+// ---------------------------------------------------------------- FindIssuer, Check
+//
+// ghost.nameString(n, k): k is the string form n.String() of the distinguished name n (an
+// uninterpreted functional relation, see /verif/extern/revocation.contracts).
+// ghost.bigEq(x, y): the integers stored at x and y are equal (decided by (*big.Int).Cmp,
+// /verif/extern/bigint.contracts).
+// ghost.filedAt(c, k, l): "l is the (non-nil) list filed in c.IssuerLists under key k". The
+// relation is DEFINED by the precondition graph(c) - it holds exactly for the pairs of the
+// map - and only gives the lists a name: a map lookup is an if-then-else term, which may not
+// occur in a quantifier trigger, so every quantifier over list positions ranges over a list
+// named by a variable l with filedAt(c, k, l).
+//@ pred listOf(c, k) = c.IssuerLists[k]
+//@ pred graph(c) = forallv(k, string, listOf(c, k) != nil ==> ghost.filedAt(c, k, listOf(c, k))) && forallv(k, string, forallv(l, *IssuerList, ghost.filedAt(c, k, l) ==> l != nil && l == listOf(c, k)))
+// Quantifiers over list positions: spec.at is the identity (/verif/specs/revocation.smt2), so
+// ix(i) is true; it only plants the trigger term at(i) (index arithmetic inside a trigger is
+// matched syntactically by the solver and is unreliable). Existentials are written as negated
+// universals so that they carry the trigger too.
+//@ pred ix(i) = spec.at(i) == i
 // Representation invariant of a parsed OneCRL: blocked records are non-nil, every list
 // filed in IssuerLists holds non-nil entries with non-nil serial numbers (Parse files an
 // entry under an issuer only together with a serial number).
-// ghost.filed is an auxiliary, otherwise unconstrained relation: filedAll says it contains
-// every list of the map, okOneCRL that all its members are well formed - together exactly
-// "every list of the map is well formed" (take the set of the map's values).
-// (quantifiers over list positions are written over i+1 so that their triggers match the
-// counter of a range loop; "exists" is written as a negated forall to carry a trigger)
-//@ pred okList(l) = forall(i, -1, len(l.Entries) - 1, l.Entries[i+1] != nil && l.Entries[i+1].SerialNumber != nil, l.Entries[i+1])
-//@ pred entryOf(l, r) = !forall(i, -1, len(l.Entries) - 1, l.Entries[i+1] != r, l.Entries[i+1])
-//@ pred filedAll(c) = forallv(k, string, c.IssuerLists[k] != nil ==> ghost.filed(c, c.IssuerLists[k]))
-//@ pred okOneCRL(c) = c != nil && forall(j, -1, len(c.Blocked) - 1, c.Blocked[j+1] != nil, c.Blocked[j+1]) && filedAll(c) && forallv(l, *IssuerList, ghost.filed(c, l) ==> okList(l))
+//@ pred okList(l) = forall(i, 0, len(l.Entries), ix(i) ==> l.Entries[i] != nil && l.Entries[i].SerialNumber != nil, spec.at(i))
+//@ pred okOneCRL(c) = c != nil && forall(j, 0, len(c.Blocked), ix(j) ==> c.Blocked[j] != nil, spec.at(j)) && graph(c) && forallv(k, string, forallv(l, *IssuerList, ghost.filedAt(c, k, l) ==> okList(l)))
 
-// FindIssuer returns one of the lists filed in c (under the string form of the name), or nil.
+// FindIssuer returns the list filed in c under the string form of the name (nil when there is none).
 //@ func (*OneCRL).FindIssuer
-//@   requires c != nil && issuer != nil && filedAll(c)
-//@   ensures  result == nil || ghost.filed(c, result)
-//@   ensures  result == nil || !forallv(k, string, c.IssuerLists[k] != result)
-//@   ensures  forallv(k, string, c.IssuerLists[k] == nil) ==> result == nil
-//@   ensures  forallv(k, string, ghost.nameString(*issuer, k) ==> result == c.IssuerLists[k])
+//@   requires c != nil && issuer != nil
+//@   ensures [is]  forallv(k, string, ghost.nameString(*issuer, k) ==> result == listOf(c, k))
+//@   ensures [key] !forallv(k, string, !(ghost.nameString(*issuer, k) && result == listOf(c, k)))
+//@   modifies nothing
 //@   terminates
 
-// A reported entry is either a new record for a blocked (subject, key hash) pair that
-// matches the certificate's subject, or an element of one of the filed lists.
+//@ pred sameSerial(e, cert) = ghost.bigEq(e.SerialNumber, cert.SerialNumber)
+// "the first n elements of l do not have cert's serial number" / "some element of l has it" /
+// "r is the first element of l that has it": r has it, and every element that has it stands
+// at or behind an occurrence of r.
+//@ pred noHit(l, cert, n) = forall(j, 0, n, ix(j) ==> !sameSerial(l.Entries[j], cert), spec.at(j))
+//@ pred revokes(l, cert) = !noHit(l, cert, len(l.Entries))
+//@ pred occursUpTo(l, r, n) = !forall(i, 0, n, ix(i) ==> l.Entries[i] != r, spec.at(i))
+//@ pred firstHit(l, cert, r) = sameSerial(r, cert) && forall(j, 0, len(l.Entries), ix(j) && sameSerial(l.Entries[j], cert) ==> occursUpTo(l, r, j+1), spec.at(j))
+// A report for a blocked (subject, key hash) pair: a new record with the certificate's
+// subject and a 32-octet key hash, justified by a blocked record with equal subject and hash.
 //@ pred spk(r) = r.SubjectAndPublicKey
-//@ pred blockedShape(c, cert, r) = fresh(r) && spk(r) != nil && same(spk(r).RawSubject, cert.RawSubject) && spk(r).Subject == &cert.Subject && len(spk(r).PubKeyHash) == 32 && exists(j, 0, len(c.Blocked), eq(c.Blocked[j].RawSubject, cert.RawSubject) && eq(c.Blocked[j].PubKeyHash, spk(r).PubKeyHash))
-//@ pred issuerShape(c, cert, r) = forallv(k, string, ghost.nameString(cert.Issuer, k) ==> c.IssuerLists[k] != nil && !forallv(l, *IssuerList, !(l == c.IssuerLists[k] && entryOf(l, r))))
-//@ pred memberShape(c, r) = !forallv(l, *IssuerList, !(ghost.filed(c, l) && entryOf(l, r)))
+//@ pred blockedBy(c, cert, r) = !forall(j, 0, len(c.Blocked), ix(j) ==> !(eq(c.Blocked[j].RawSubject, cert.RawSubject) && eq(c.Blocked[j].PubKeyHash, spk(r).PubKeyHash)), spec.at(j))
+//@ pred blockedShape(c, cert, r) = spk(r) != nil && same(spk(r).RawSubject, cert.RawSubject) && spk(r).Subject == &cert.Subject && len(spk(r).PubKeyHash) == 32 && blockedBy(c, cert, r)
+
+// Check(cert) - "by issuer name and serial or subject and key hash" (C15). A reported entry
+// is either a NEW record (fresh) for a blocked subject and key hash, [shape], or an element
+// of the list l filed under the string form k of cert's issuer name; in the second case
+// [exact_only] l lists a serial number equal to cert's and [which] the entry is the FIRST
+// element of l with that number. [nolist] Without such a list only a blocked record is
+// reported. [exact_listed] Nothing is reported only if l does not list cert's serial number.
+// (Not stated: "nothing is reported only if no blocked record matches" - it needs the key
+// hash as a function of the certificate, see /verif/notes/revocation.md.)
 //@ func (*OneCRL).Check
 //@   uses perreturn
 //@   requires okOneCRL(c) && cert != nil && cert.SerialNumber != nil
-//@   loop 1 invariant 0 <= it && it <= len(c.Blocked)
-//@   loop 1 decreases len(c.Blocked) - it
-//@   ensures [shape] result != nil ==> blockedShape(c, cert, result) || memberShape(c, result)
-//@   ensures [issuer] result != nil ==> blockedShape(c, cert, result) || issuerShape(c, cert, result)
-//@   ensures [nolist] forallv(k, string, ghost.nameString(cert.Issuer, k) && c.IssuerLists[k] == nil && result != nil ==> fresh(result) && spk(result) != nil)
+//@   loop 1 invariant ix(it)
+//@   loop 2 invariant ix(it) && noHit(issuersRevokedCerts, cert, it)
+//@   ensures [shape]  result != nil && fresh(result) ==> blockedShape(c, cert, result)
+//@   ensures [nolist] forallv(k, string, ghost.nameString(cert.Issuer, k) && listOf(c, k) == nil && result != nil ==> fresh(result))
+//@   ensures [exact_listed] forallv(k, string, forallv(l, *IssuerList, ghost.nameString(cert.Issuer, k) && ghost.filedAt(c, k, l) && result == nil ==> noHit(l, cert, len(l.Entries))))
+//@   ensures [exact_only]   forallv(k, string, forallv(l, *IssuerList, ghost.nameString(cert.Issuer, k) && ghost.filedAt(c, k, l) && result != nil && !fresh(result) ==> revokes(l, cert)))
+//@   ensures [which]  forallv(k, string, forallv(l, *IssuerList, ghost.nameString(cert.Issuer, k) && ghost.filedAt(c, k, l) && result != nil && !fresh(result) ==> firstHit(l, cert, result)))
+//@   modifies nothing
 //@   terminates
